@@ -73,6 +73,13 @@ def run_proofs(rep, mods, extra_scan=()):
     missing = [n for n in names if n not in ax]
     rep.ob('audit:axioms', f"{len(names)} theorems", not bad_ax and not missing,
            json.dumps(dict(bad=bad_ax, missing=missing[:5])))
+    if rep.tier == 'thorough' and built:
+        # independent re-check of the compiled proof modules by the toolchain's stand-alone kernel checker
+        try:
+            rc, out, dt = core.sh(['lake', 'env', 'leanchecker'] + list(built), cwd=core.LEAN, timeout=3600)
+            rep.ob('audit:leanchecker', f"{len(built)} modules in {dt:.0f}s", rc == 0, out[-600:] if rc else '')
+        except Exception as e:  # noqa - a time-out of the re-checker is not a verdict on the property
+            rep.notes.append(f"leanchecker did not finish: {type(e).__name__}")
     rep.cov['axioms_used'] = sorted({a for v in ax.values() for a in v})
     rep.cov['theorems'] = names
     return ok, log
